@@ -8,6 +8,7 @@ from datetime import timedelta as _td, datetime as _dt
 import z3
 
 from symx import core, solve, dtmodel
+from harness import c03r
 from symx.case import Case, Holds, run_cases, replay_cases
 from symx.core import R, CTX, SB, explore, var
 from symx.dtmodel import SF, SI, STD, SDT
@@ -18,16 +19,24 @@ FUNCS = ["beyond.dates.date:Timescale.offset", "beyond.dates.date:Timescale._sca
          "beyond.dates.date:Date.__sub__", "beyond.dates.date:Date.change_scale", "beyond.dates.date:Date._mjd",
          "beyond.dates.date:Date.__eq__", "beyond.dates.date:Date.__hash__", "beyond.dates.date:Date.__lt__",
          "beyond.dates.date:DateRange.__init__", "beyond.dates.date:DateRange.__iter__", "beyond.dates.date:DateRange.__len__",
-         "beyond.dates.date:DateRange.__contains__", "beyond.dates.eop:EopDb.get"]
+         "beyond.dates.date:DateRange.__contains__", "beyond.dates.eop:EopDb.get",
+         "beyond.dates.eop:Finals2000A.__init__", "beyond.dates.eop:TaiUtc.__init__", "beyond.dates.eop:SimpleEopDatabase.__init__",
+         "beyond.dates.eop:SimpleEopDatabase.__getitem__", "beyond.dates.eop:SimpleEopDatabase.finals",
+         "beyond.dates.eop:SimpleEopDatabase.tai_utc"]
 STUBS = ["range/*_fp: timedelta.total_seconds() additionally carries a relative rounding error |delta| <= 2^-52 (float seconds vs exact "
          "timedelta arithmetic)", "float/int -> SF/SI (float/int subclasses wrapping exact reals; // % divmod with Python floor semantics)",
          "datetime/timedelta -> exact real seconds (microsecond rounding not modelled)", "EopDb.get -> one symbolic record "
          "(tai_utc, ut1_utc) for the dates of one obligation (same-day assumption)", "eq/hash consistency: the return expressions of "
-         "Date._mjd / __eq__ / __hash__ are translated from the AST into IEEE-754 binary64 terms (QF_FP)"]
+         "Date._mjd / __eq__ / __hash__ are translated from the AST into IEEE-754 binary64 terms (QF_FP)",
+         "readers: pathlib.Path in beyond.dates.eop -> in-memory files of 3 lines each whose digits and sign columns are solver variables "
+         "(class of every column -- blank, digit, sign, point, flag -- fixed by the IERS format description); float -> decimal value of "
+         "such a field (ValueError on blank or malformed slices, as the builtin); int -> floor by forking over the modelled days"]
 ASSUMPTIONS = ["exact reals for the arithmetic laws (rounding outside), binary64 for the eq/hash clause", "the EOP record does not change "
                "between the two dates of one obligation (no leap second, same table day)", "|ut1_utc| < 0.9, tai_utc in [10, 37]",
                "seconds of day in [0, 86400)"]
-OUTSIDE = ["content of the real IERS tables", "value of the TDB periodic term (only its bound 1.7 ms and its use are checked)",
+OUTSIDE = ["content of the real IERS tables (the readers are checked on arbitrary contents of 3-line files in the published "
+           "fixed format: finals lines with all fields, without nutation corrections, without LOD, or ended; pre-1972 tai-utc drift "
+           "terms are ignored by the code and outside the 1973-2017 claim)", "value of the TDB periodic term (only its bound 1.7 ms and its use are checked)",
            "bit-precise 1-2 microsecond bounds of the conversions (floating point + timedelta rounding)"]
 SCALES = ["UT1", "GPS", "TDB", "UTC", "TAI", "TT"]
 
@@ -545,6 +554,8 @@ def groups(tier):
     g = {c.name.replace("/", "_"): (lambda c=c: run_cases([c])) for c in all_cases(tier)}
     g["eq_hash"] = hash_group
     g["policy"] = policy_group
+    for sh in c03r.SHAPES:
+        g["readers_" + sh] = (lambda sh=sh: c03r.readers_group(tier, sh))
     return g
 
 
@@ -567,6 +578,8 @@ def replay(ob, model):
                 return {"reproduced": True, "signature": "Date eq/hash inconsistent (binary64 _mjd)",
                         "detail": f"Date({d1}, {s1!r}) == Date({d1}, {s2!r}) (TAI) but their hashes differ", "inputs": {"d": d1, "s1": s1, "s2": s2}}
         return {"reproduced": False, "signature": "Date eq/hash", "detail": f"no witness reproduced around day {d1}"}
+    if str(rp.get("kind", "")).startswith("readers"):
+        return c03r.replay(ob, model)
     if rp.get("kind") == "policy":
         return {"reproduced": True, "signature": "EopDb.get missing-data policy", "detail": rp.get("err", ob.get("desc", ""))}
     return replay_cases(all_cases("thorough"), ob, model)
